@@ -89,10 +89,12 @@ def evalFile (f : DddmpFile) (α : String → Bool) (x : Int) : Bool :=
   | .error _ => false
 
 /-- assignment of levels induced by an assignment of names, in a manager -/
-def asgOf (t : Tbl) (α : String → Bool) : Asg := fun i =>
-  match t.l2v[i]? with
+def asgOfMap (l2v : TreeMap Nat String) (α : String → Bool) : Asg := fun i =>
+  match l2v[i]? with
   | some v => α v
   | none => false
+
+def asgOf (t : Tbl) (α : String → Bool) : Asg := asgOfMap t.l2v α
 
 /-! ### well-formed files -/
 
@@ -276,5 +278,277 @@ theorem DddmpBodyWF.evalFileF_term (hw : DddmpBodyWF f i2p levels nv) (α : Stri
   simp [hfind, ht.2.1]
 
 end WFFile
+
+/-! ### the rebuild loop -/
+
+/-- the entry `_parse_body` stores for a node line -/
+def dddmpEntryOf (i2p : List (Tok × Int)) (n : DddmpNode) : Int × DddmpEntry :=
+  (n.u, ⟨(dictGet i2p n.info).getD 0,
+         if n.els = 0 then none else some n.els,
+         if n.thn = 0 then none else some n.thn⟩)
+
+/-- the level of the new manager at which the line `y` is rebuilt -/
+def DddmpLvl (i2p : List (Tok × Int)) (o2n : List (Int × Int)) (y : DddmpNode) (i : Nat) : Prop :=
+  ∃ k, dictGet i2p y.info = some k ∧ dictGet o2n k = some (i : Int)
+
+theorem DddmpLvl.det {i2p : List (Tok × Int)} {o2n : List (Int × Int)} {y : DddmpNode} {i i' : Nat}
+    (h : DddmpLvl i2p o2n y i) (h' : DddmpLvl i2p o2n y i') : i = i' := by
+  obtain ⟨k, hk, hi⟩ := h
+  obtain ⟨k', hk', hi'⟩ := h'
+  rw [hk] at hk'
+  cases hk'
+  rw [hi] at hi'
+  have := Option.some.inj hi'
+  omega
+
+/-- everything the loop needs to know about the tables computed before it -/
+structure DddmpRCtx (f : DddmpFile) (i2p levels : List (Tok × Int)) (nv : Int)
+    (o2n : List (Int × Int)) (n : Nat) (l2v0 : TreeMap Nat String) : Prop where
+  wf : DddmpBodyWF f i2p levels nv
+  hT : dictGet i2p (.str "T") = some (nv + 1)
+  rank : ∀ var k, (var, k) ∈ levels →
+    ∃ i : Nat, dictGet o2n k = some (i : Int) ∧ i < n ∧ l2v0[i]? = some var.show
+  mono : ∀ (k k' : Int) (i i' : Nat), k ∈ levels.map (·.2) → k' ∈ levels.map (·.2) → k < k' →
+    dictGet o2n k = some (i : Int) → dictGet o2n k' = some (i' : Int) → i < i'
+
+/-- the file node `y` has been rebuilt correctly: `umap` sends its number to a reference
+of the manager, not above its level, denoting (by variable name) what the file says -/
+def DddmpGood (f : DddmpFile) (i2p levels : List (Tok × Int)) (nv : Int) (o2n : List (Int × Int))
+    (l2v0 : TreeMap Nat String) (m : Mgr) (umap : List (Int × Int)) (y : DddmpNode) : Prop :=
+  ∃ r, dictGet umap y.u = some r ∧ m.tbl.Mem r ∧
+    (∀ i, DddmpLvl i2p o2n y i → i ≤ m.tbl.levelOf r) ∧
+    ∀ α, den m.tbl r (asgOfMap l2v0 α) = evalFileF i2p levels f.nodes α (nv + 2).toNat y.u
+
+/-- loop invariant: the nodes in `D` have been rebuilt -/
+structure DddmpSt (f : DddmpFile) (i2p levels : List (Tok × Int)) (nv : Int) (o2n : List (Int × Int))
+    (n : Nat) (l2v0 : TreeMap Nat String) (m : Mgr) (umap : List (Int × Int))
+    (D : DddmpNode → Prop) : Prop where
+  inv : Inv m
+  ctx : m.ctx = false
+  l2v : m.tbl.l2v = l2v0
+  nvars : m.nvars = n
+  term : dictGet umap 1 = some 1
+  good : ∀ y ∈ f.nodes, y.IsNode f i2p levels → D y → DddmpGood f i2p levels nv o2n l2v0 m umap y
+
+section Rebuild
+variable {f : DddmpFile} {i2p levels : List (Tok × Int)} {nv : Int} {o2n : List (Int × Int)}
+  {n : Nat} {l2v0 : TreeMap Nat String}
+
+theorem DddmpBodyWF.eq_of_u_eq (hw : DddmpBodyWF f i2p levels nv) {x y : DddmpNode}
+    (hx : x ∈ f.nodes) (hy : y ∈ f.nodes) (h : x.u = y.u) : x = y := by
+  have h1 := find?_node_of_mem hw.idsNodup hx
+  have h2 := find?_node_of_mem hw.idsNodup hy
+  rw [h] at h1
+  rw [h1] at h2
+  exact Option.some.inj h2
+
+/-- a non-terminal line has a level in the new manager -/
+theorem DddmpRCtx.lvl_of_node (C : DddmpRCtx f i2p levels nv o2n n l2v0) {x : DddmpNode}
+    (hnode : x.IsNode f i2p levels) :
+    ∃ (k : Int) (var : Tok) (i : Nat), dictGet i2p x.info = some k ∧ (var, k) ∈ levels ∧
+      dictGet o2n k = some (i : Int) ∧ i < n ∧ l2v0[i]? = some var.show ∧
+      DddmpChildOK f i2p k x.thn ∧ DddmpChildOK f i2p k x.els := by
+  obtain ⟨_, _, _, _, k, hk, hkl, hc1, hc2⟩ := hnode
+  obtain ⟨p, hp, hpk⟩ := List.mem_map.mp hkl
+  obtain ⟨var, k'⟩ := p
+  simp only at hpk
+  subst hpk
+  obtain ⟨i, hi, hin, hl⟩ := C.rank var k' hp
+  exact ⟨k', var, i, hk, hp, hi, hin, hl, hc1, hc2⟩
+
+/-- what the loop finds in `umap` for a child of a node at level `j` -/
+theorem DddmpSt.child {m : Mgr} {umap : List (Int × Int)} {D : DddmpNode → Prop}
+    (C : DddmpRCtx f i2p levels nv o2n n l2v0)
+    (hs : DddmpSt f i2p levels nv o2n n l2v0 m umap D) {j : Nat} (hj : j < n)
+    (hD : ∀ y ∈ f.nodes, ∀ i, DddmpLvl i2p o2n y i → j < i → D y)
+    {k : Int} (hk : k ∈ levels.map (·.2)) (hkj : dictGet o2n k = some (j : Int))
+    {c : Int} (hc : DddmpChildOK f i2p k c) :
+    ∃ r, dictGet umap (c.natAbs : Int) = some r ∧ m.tbl.Mem r ∧ j < m.tbl.levelOf r ∧
+      ∀ α, den m.tbl r (asgOfMap l2v0 α) =
+        evalFileF i2p levels f.nodes α (nv + 2).toNat (c.natAbs : Int) := by
+  obtain ⟨n', hn', hu', k', hk', hlt⟩ := hc
+  rcases C.wf.line n' hn' with ht | hnode
+  · refine ⟨1, ?_, Or.inl rfl, ?_, ?_⟩
+    · rw [← hu', ht.1]; exact hs.term
+    · rw [levelOf_term _ _ rfl]
+      have := hs.nvars
+      unfold Mgr.nvars at this
+      omega
+    · intro α
+      rw [den_one, ← hu', ht.1, C.wf.evalFileF_term α hn' ht]
+  · obtain ⟨k₂, var, i', hk₂, hv, hi', _, _, _, _⟩ := C.lvl_of_node hnode
+    rw [hk'] at hk₂
+    cases hk₂
+    have hji : j < i' := C.mono k k' j i' hk (List.mem_map.mpr ⟨(var, k'), hv, rfl⟩) hlt hkj hi'
+    have hl : DddmpLvl i2p o2n n' i' := ⟨k', hk', hi'⟩
+    obtain ⟨r, hr, hm, hlev, hden⟩ := hs.good n' hn' hnode (hD n' hn' i' hl hji)
+    refine ⟨r, by rw [← hu']; exact hr, hm, ?_, ?_⟩
+    · have := hlev i' hl
+      omega
+    · intro α
+      rw [hden α, hu']
+
+theorem DddmpSt.weaken {m : Mgr} {umap : List (Int × Int)} {D D' : DddmpNode → Prop}
+    (hs : DddmpSt f i2p levels nv o2n n l2v0 m umap D)
+    (h : ∀ y ∈ f.nodes, y.IsNode f i2p levels → D' y → D y) :
+    DddmpSt f i2p levels nv o2n n l2v0 m umap D' :=
+  ⟨hs.inv, hs.ctx, hs.l2v, hs.nvars, hs.term, fun y hy hyn hd => hs.good y hy hyn (h y hy hyn hd)⟩
+
+/-- one iteration of the inner loop of `load` -/
+theorem DddmpSt.step (H : FoaSpec) {m : Mgr} {umap : List (Int × Int)} {D : DddmpNode → Prop}
+    (C : DddmpRCtx f i2p levels nv o2n n l2v0)
+    (hs : DddmpSt f i2p levels nv o2n n l2v0 m umap D) {j : Nat} (hj : j < n)
+    (hD : ∀ y ∈ f.nodes, ∀ i, DddmpLvl i2p o2n y i → j < i → D y)
+    {x : DddmpNode} (hx : x ∈ f.nodes) :
+    ∃ m' umap', dddmpRebuildNode o2n (j : Int) umap (dddmpEntryOf i2p x) m = (.ok umap', m') ∧
+      DddmpSt f i2p levels nv o2n n l2v0 m' umap'
+        (fun y => D y ∨ (y = x ∧ DddmpLvl i2p o2n y j)) := by
+  rcases C.wf.line x hx with ht | hnode
+  · -- a terminal line: nothing happens
+    refine ⟨m, umap, ?_, hs.weaken ?_⟩
+    · simp [dddmpRebuildNode, dddmpEntryOf, ht.2.2.1, ht.2.2.2]
+    · intro y hy hyn hd
+      rcases hd with hd | ⟨rfl, _⟩
+      · exact hd
+      · exfalso
+        have := hyn.1
+        rw [ht.1] at this
+        omega
+  · obtain ⟨k, var, i, hk, hv, hi, hin, hl, hc1, hc2⟩ := C.lvl_of_node hnode
+    have hkmem : k ∈ levels.map (·.2) := List.mem_map.mpr ⟨(var, k), hv, rfl⟩
+    have hu1 := hnode.1
+    have hthn := hnode.2.2.1
+    have hels := hnode.2.2.2.1
+    have hthn0 : x.thn ≠ 0 := by omega
+    by_cases hij : i = j
+    · subst hij
+      obtain ⟨q, hq, hqm, hql, hqd⟩ := hs.child C hj hD hkmem hi hc1
+      obtain ⟨p, hp, hpm, hpl, hpd⟩ := hs.child C hj hD hkmem hi hc2
+      have hthnabs : (x.thn.natAbs : Int) = x.thn := by omega
+      rw [hthnabs] at hq hqd
+      have hwf := hs.inv.wf.toWF
+      -- the else-edge, with its complement mark
+      have hp'm : m.tbl.Mem (if x.els < 0 then -p else p) := by
+        split
+        · exact mem_neg hpm
+        · exact hpm
+      have hp'l : i < m.tbl.levelOf (if x.els < 0 then -p else p) := by
+        split
+        · rw [levelOf_neg]; exact hpl
+        · exact hpl
+      have hp'd : ∀ α, den m.tbl (if x.els < 0 then -p else p) (asgOfMap l2v0 α) =
+          evalFileF i2p levels f.nodes α (nv + 2).toNat x.els := by
+        intro α
+        rw [evalFileF_abs _ _ _ _ _ x.els, ← hpd α]
+        split
+        · next h => rw [den_neg _ hwf _ _ hpm]; simp [h]
+        · next h => simp [h]
+      have hinv := hs.nvars
+      obtain ⟨r, m', hfo, hinv', hext, hrm, hrl, hrd⟩ :=
+        H.spec m i _ q hs.inv (by unfold Mgr.nvars at *; omega) hp'm hqm hp'l hql
+      have hm' : m' = (findOrAddCore i (if x.els < 0 then -p else p) q m).2 := by rw [hfo]
+      have hfr := findOrAddCore_frame i (if x.els < 0 then -p else p) q m
+      rw [← hm'] at hfr
+      have huabs : (x.u.natAbs : Int) = x.u := by omega
+      refine ⟨m', dictSet umap x.u r, ?_, ?_⟩
+      · simp [dddmpRebuildNode, dddmpEntryOf, hels, hthn0, hk, hi, hp, hq,
+          findOrAdd_eq_core _ _ _ _ hs.ctx, hfo, huabs]
+      · refine ⟨hinv', hfr.2.2.trans hs.ctx, hfr.2.1.trans hs.l2v, ?_, ?_, ?_⟩
+        · have := hext.nvars
+          unfold Mgr.nvars at *
+          omega
+        · rw [dictGet_dictSet_ne _ _ _ _ (by omega)]
+          exact hs.term
+        · intro y hy hyn hd
+          by_cases hyu : y.u = x.u
+          · have hyx : y = x := C.wf.eq_of_u_eq hy hx hyu
+            subst hyx
+            refine ⟨r, dictGet_dictSet_same _ _ _, hrm, ?_, ?_⟩
+            · intro i' hl'
+              have : i' = i := hl'.det ⟨k, hk, hi⟩
+              omega
+            · intro α
+              rw [hrd, C.wf.evalFileF_node C.hT α hy hyn hk hv, hqd α, hp'd α]
+              have : asgOfMap l2v0 α i = α var.show := by simp [asgOfMap, hl]
+              rw [this]
+          · have hdy : D y := by
+              rcases hd with hd | ⟨rfl, _⟩
+              · exact hd
+              · exact absurd rfl hyu
+            obtain ⟨r', hr', hm', hlev', hden'⟩ := hs.good y hy hyn hdy
+            refine ⟨r', ?_, hext.mem hm', ?_, ?_⟩
+            · rw [dictGet_dictSet_ne _ _ _ _ hyu]; exact hr'
+            · intro i' hl'
+              rw [hext.levelOf hm']
+              exact hlev' i' hl'
+            · intro α
+              rw [den_ext hext hwf _ _ hm']
+              exact hden' α
+    · -- a node of another level: nothing happens in this pass
+      have hij' : ¬ ((i : Int) = (j : Int)) := by omega
+      refine ⟨m, umap, ?_, hs.weaken ?_⟩
+      · simp [dddmpRebuildNode, dddmpEntryOf, hels, hk, hi, hij']
+      · intro y hy hyn hd
+        rcases hd with hd | ⟨rfl, hl'⟩
+        · exact hd
+        · exact absurd (hl'.det ⟨k, hk, hi⟩).symm hij
+
+/-- one pass `for u, (k, v, w) in bdd_succ.items()` at level `j` -/
+theorem DddmpSt.levelPass (H : FoaSpec) (C : DddmpRCtx f i2p levels nv o2n n l2v0)
+    {j : Nat} (hj : j < n) :
+    ∀ (rest : List DddmpNode), (∀ x ∈ rest, x ∈ f.nodes) →
+    ∀ (m : Mgr) (umap : List (Int × Int)) (D : DddmpNode → Prop),
+      DddmpSt f i2p levels nv o2n n l2v0 m umap D →
+      (∀ y ∈ f.nodes, ∀ i, DddmpLvl i2p o2n y i → j < i → D y) →
+      ∃ m' umap', dddmpRebuildLevel o2n (j : Int) (rest.map (dddmpEntryOf i2p)) umap m =
+          (.ok umap', m') ∧
+        DddmpSt f i2p levels nv o2n n l2v0 m' umap'
+          (fun y => D y ∨ (y ∈ rest ∧ DddmpLvl i2p o2n y j)) := by
+  intro rest
+  induction rest with
+  | nil =>
+    intro _ m umap D hs _
+    exact ⟨m, umap, rfl, hs.weaken (fun y _ _ hd => by simpa using hd)⟩
+  | cons x rest ih =>
+    intro hsub m umap D hs hD
+    obtain ⟨m1, umap1, h1, hs1⟩ := hs.step H C hj hD (hsub x List.mem_cons_self)
+    obtain ⟨m2, umap2, h2, hs2⟩ := ih (fun y hy => hsub y (List.mem_cons_of_mem _ hy)) m1 umap1 _ hs1
+      (fun y hy i hl hji => Or.inl (hD y hy i hl hji))
+    refine ⟨m2, umap2, ?_, hs2.weaken ?_⟩
+    · simp only [List.map_cons, dddmpRebuildLevel, h1, h2]
+    · intro y _ _ hd
+      rcases hd with hd | ⟨hy, hl⟩
+      · exact Or.inl (Or.inl hd)
+      · rcases List.mem_cons.mp hy with rfl | hy
+        · exact Or.inl (Or.inr ⟨rfl, hl⟩)
+        · exact Or.inr ⟨hy, hl⟩
+
+/-- the loop `for j in range(n - 1, -1, -1)` from `c - 1` down to `0` -/
+theorem DddmpSt.rebuild (H : FoaSpec) (C : DddmpRCtx f i2p levels nv o2n n l2v0) :
+    ∀ (c : Nat), c ≤ n → ∀ (m : Mgr) (umap : List (Int × Int)),
+      DddmpSt f i2p levels nv o2n n l2v0 m umap (fun y => ∃ i, DddmpLvl i2p o2n y i ∧ c ≤ i) →
+      ∃ m' umap', dddmpRebuild o2n (f.nodes.map (dddmpEntryOf i2p)) c umap m = (.ok umap', m') ∧
+        DddmpSt f i2p levels nv o2n n l2v0 m' umap' (fun _ => True) := by
+  intro c
+  induction c with
+  | zero =>
+    intro _ m umap hs
+    refine ⟨m, umap, rfl, hs.weaken ?_⟩
+    intro y _ hyn _
+    obtain ⟨k, _, i, hk, _, hi, _⟩ := C.lvl_of_node hyn
+    exact ⟨i, ⟨k, hk, hi⟩, Nat.zero_le _⟩
+  | succ c ih =>
+    intro hc m umap hs
+    obtain ⟨m1, umap1, h1, hs1⟩ := DddmpSt.levelPass H C (j := c) (by omega) f.nodes
+      (fun _ h => h) m umap _ hs (fun y _ i hl hji => ⟨i, hl, by omega⟩)
+    obtain ⟨m2, umap2, h2, hs2⟩ := ih (by omega) m1 umap1 (hs1.weaken (by
+      intro y _ _ hd
+      obtain ⟨i, hl, hci⟩ := hd
+      rcases Nat.eq_or_lt_of_le hci with he | hlt
+      · subst he; exact Or.inr ⟨‹_›, hl⟩
+      · exact Or.inl ⟨i, hl, by omega⟩))
+    exact ⟨m2, umap2, by simp only [dddmpRebuild, h1, h2], hs2⟩
+
+end Rebuild
 
 end DD
